@@ -9,6 +9,7 @@ import (
 	"encoding/hex"
 	"fmt"
 	"go/token"
+	"go/types"
 	"os"
 	"path/filepath"
 	"reflect"
@@ -215,6 +216,24 @@ func Run(o Options) (*Result, error) {
 func siteString(k annotation.Key) string {
 	if k == nil || reflect.ValueOf(k).IsNil() {
 		return ""
+	}
+	// keys of functions print the bare function name: append the receiver-qualified name so that a method of an
+	// interface and the methods implementing it can be told apart
+	var fn *types.Func
+	switch kk := k.(type) {
+	case *annotation.ParamAnnotationKey:
+		fn = kk.FuncDecl
+	case *annotation.RetAnnotationKey:
+		fn = kk.FuncDecl
+	case *annotation.RecvAnnotationKey:
+		fn = kk.FuncDecl
+	case *annotation.CallSiteParamAnnotationKey:
+		fn = kk.FuncDecl
+	case *annotation.CallSiteRetAnnotationKey:
+		fn = kk.FuncDecl
+	}
+	if fn != nil {
+		return fmt.Sprintf("%T:%s|%s", k, k.String(), fn.FullName())
 	}
 	return fmt.Sprintf("%T:%s", k, k.String())
 }
